@@ -222,6 +222,56 @@ def run(ctx, res):
         res.fail("R-TRIGGER-GATE", "trigger flag consumed under lock", "R-TRIGGER-GATE|consume", fs.loc(),
                  "the streamer does not clear software_trigger.triggered under im.lock: one trigger can release more than one frame")
 
+    # ---- R-FRESH: a frame is copied out only when it is newer than the last
+    # one handed out (strict), and is then recorded as handed out ---------
+    res.touched(f_get)
+    copies = [(b.id, i, s_) for b, i, s_ in f_get.all_stmts() if any(c.get("fn") == "memcpy" for c in ir.calls_in(s_))]
+    if not copies:
+        raise AnalysisBroken("%s no longer copies a frame out" % f_get.name)
+    LAST, CUR = (CAM_REC, "im.last_emitted_frame_id"), (CAM_REC, "im.frame_id")
+
+    def strictly_newer(cn, lab, blk):
+        c0 = ir.strip(cn)
+        neg = False
+        while isinstance(c0, dict) and c0.get("k") == "un" and c0.get("op") == "!":
+            neg = not neg
+            c0 = ir.strip(c0["e"])
+        if not (isinstance(c0, dict) and c0.get("k") == "bin" and c0["op"] in ("<", "<=", ">", ">=")):
+            return False
+        l = obj_key(ir.strip(c0["l"])) if ir.strip(c0["l"]).get("k") == "mem" else None
+        r = obj_key(ir.strip(c0["r"])) if ir.strip(c0["r"]).get("k") == "mem" else None
+        op = c0["op"]
+        if (l, r) == (CUR, LAST):
+            op = {"<": ">", "<=": ">=", ">": "<", ">=": "<="}[op]
+            l, r = r, l
+        if (l, r) != (LAST, CUR):
+            return False
+        # with l = last, r = current:  "last < current" must hold on this edge
+        truth = (lab == "true") != neg
+        return (op == "<" and truth) or (op == ">=" and not truth)
+    for bid, i, s_ in copies:
+        dom = paths.edge_dominated_correlated(f_get, (bid, i), strictly_newer)
+        inst = "%s: copy-out only of a frame newer than the last emitted one" % f_get.name
+        if dom:
+            res.oblige("R-FRESH", inst, True, "dominated by last_emitted_frame_id < frame_id", f_get.loc(s_))
+        else:
+            res.fail("R-FRESH", inst, "R-FRESH|%s|guard" % f_get.name, f_get.loc(s_),
+                     "%s can copy a frame out without having established that its id is strictly greater than the last emitted id: the same frame can be delivered twice" % f_get.name)
+        def records(ss):
+            for lv, op, rhs, w in ir.writes_of(ss):
+                if lv.get("k") == "mem" and obj_key(lv) == LAST and isinstance(ir.strip(rhs), dict) and \
+                        ir.strip(rhs).get("k") == "mem" and obj_key(ir.strip(rhs)) == CUR:
+                    return True
+            return False
+        pre, _ = paths.all_paths_pass(f_get, "entry", {(bid, i)}, records)
+        post, _ = paths.all_paths_pass(f_get, (bid, i), "exit", records)
+        inst = "%s: the emitted id is recorded" % f_get.name
+        if pre or post:
+            res.oblige("R-FRESH", inst, True, "last_emitted_frame_id := frame_id on every path through the copy", f_get.loc(s_))
+        else:
+            res.fail("R-FRESH", inst, "R-FRESH|%s|record" % f_get.name, f_get.loc(s_),
+                     "%s copies a frame out without recording its id as emitted: the next call returns it again" % f_get.name)
+
     # ---- R-RESTART -------------------------------------------------------
     res.touched(f_start)
     tcs = paths.calls_to(prog, f_start, {"thread_create"})
@@ -248,3 +298,4 @@ def run(ctx, res):
     res.require_min("R-STOP-WAKES", 3)
     res.require_min("R-TRIGGER-GATE", 2)
     res.require_min("R-RESTART", 2)
+    res.require_min("R-FRESH", 2)
